@@ -92,7 +92,7 @@ def oracle(c, impl):
     # (4) inside a compaction round: what a batch published (its directory is named by segments.idx at the batch's
     # "live list updated" step) has the same files at every later step of the round and at the next observation
     published = {}
-    snaps = impl.get("snaps", []) if "HIDE" not in ops else []   # (the injected fault renames a file itself)
+    snaps = impl.get("snaps", []) if "HIDE" not in ops and "FAILIDX" not in ops else []   # (the injected fault renames a file itself)
     for i, sn in enumerate(snaps):
         later_obs = impl["obs"][sn["after_obs"]]["hashes"] if sn["after_obs"] < len(impl["obs"]) else None
         for seg, files in sn["hashes"].items():
@@ -111,7 +111,7 @@ def oracle(c, impl):
     for n, o in enumerate(impl["obs"]):
         # (3) crash-free, fault-free histories: a complete segment directory that no compaction took as an input is
         # named by segments.idx (a published segment does not drop out of the index while its files stay behind)
-        if "index" in o and not o.get("parked_at") and "BLOCKSEG" not in ops and "X" not in ops and "P" not in ops and "HIDE" not in ops:
+        if "index" in o and not o.get("parked_at") and "BLOCKSEG" not in ops and "X" not in ops and "P" not in ops and "HIDE" not in ops and "FAILIDX" not in ops:
             listed = {e[0] for e in o["index"]}
             for seg, files in o["hashes"].items():
                 if files and int(seg) not in listed and int(seg) not in inputs and any(f.endswith(".zones") for f in files):
@@ -120,7 +120,7 @@ def oracle(c, impl):
         for seg, files in o["hashes"].items():
             if o.get("parked_at") and ("index" not in o or int(seg) not in {e[0] for e in o["index"]}):
                 continue   # not a quiescent observation: only what segments.idx names counts as published
-            if "HIDE" in ops and "index" in o and int(seg) not in {e[0] for e in o["index"]}:
+            if ("HIDE" in ops or "FAILIDX" in ops) and "index" in o and int(seg) not in {e[0] for e in o["index"]}:
                 continue   # the partly written output a failed round left behind is not a published segment
             if seg in seen and seen[seg][1] != files:
                 return (f"obs#{n}: segment {seg} differs from what it held at obs#{seen[seg][0]} "
